@@ -280,6 +280,14 @@ def cases(tier):
                              lsc=(lsc + 1) % 4),
                     tgt=dict(lrt=lrt, rwt=rwt, miu=mt, lto=lto_t,
                              agf=not agf, lsc=lsc)))
+    # no role given on the side that becomes Initiator: connect() tries the
+    # Target role first (nobody polls), then the Initiator role - with the
+    # same options
+    for brs, lri, lrt in itertools.product(range(3), range(4), range(4)):
+        out.append(dict(
+            ini=dict(role=None, brs=brs, lri=lri, lrt=(lrt + 1) % 4, rwt=9,
+                     miu=1024, agf=True),
+            tgt=dict(lrt=lrt, rwt=8, miu=2175, agf=True)))
     # out-of-range option values are clamped
     for brs, lri, lrt, rwt in ((3, -1, 4, 15), (-1, 4, -1, -1), (5, 3, 3, 20)):
         out.append(dict(ini=dict(brs=brs, lri=lri), tgt=dict(lrt=lrt, rwt=rwt)))
@@ -299,7 +307,8 @@ def main(tier='quick', seed=0, part=None):
     run.rule = (
         "full grid brs 0..2 x lri 0..3 x lrt 0..3 x rwt %s x miu %s per side x "
         "lto %s per side (agf, lsc derived so that all values occur), plus "
-        "out-of-range option values and all lsc pairs; one whole-stack "
+        "out-of-range option values, all lsc pairs, and brs x lri x lrt with no "
+        "role given on the side that ends up as Initiator; one whole-stack "
         "activation + 3 maximal UI exchanges per point; distinct = distinct "
         "option pair; all are non-trivial (a link is activated)" % (
             'all 15' if tier == 'thorough' else '{0,8,14}',
